@@ -443,7 +443,7 @@ pub fn run(ctx: &mut Ctx) {
         }
     }
     // 3. generated configurations
-    let n = ctx.n(20_000, 400_000);
+    let n = ctx.n(20_000, 2_000_000);
     for _ in 0..n {
         let c = gen_cfg(&mut r);
         let six = r.chance(1, 3);
@@ -477,7 +477,7 @@ pub fn run(ctx: &mut Ctx) {
             }
         }
     }
-    let n = ctx.n(5_000, 100_000);
+    let n = ctx.n(5_000, 500_000);
     for _ in 0..n {
         let u = gen_port(&mut r);
         let c = UCfg { deny: false, port: Some(u.clone()), ip: None, sub: None };
